@@ -467,11 +467,14 @@ public:
         assert(ss_front_ == 0);
         assert(ss_stack_.empty());
 
-        std::uint16_t* bktcache =
-            reinterpret_cast<std::uint16_t*>(bktcache_.data());
+        // bktcache_ may be reallocated (enlarged) by sort_mkqs_cache(), hence
+        // the pointer must be fetched again for every new sample sort step.
+        auto bktcache = [this]() {
+            return reinterpret_cast<std::uint16_t*>(bktcache_.data());
+        };
 
         // sort first level
-        ss_stack_.emplace_back(ctx_, strptr, depth, bktcache);
+        ss_stack_.emplace_back(ctx_, strptr, depth, bktcache());
 
         // step 5: "recursion"
 
@@ -524,7 +527,7 @@ public:
 
                         ss_stack_.emplace_back(
                             ctx_, sp, s.depth_ + (s.splitter_lcp[i / 2] & 0x7F),
-                            bktcache);
+                            bktcache());
                     }
                 }
                 // i is odd -> bkt[i] is equal bucket
@@ -566,7 +569,7 @@ public:
                             << " size " << bktsize << " lcp keydepth!";
 
                         ss_stack_.emplace_back(
-                            ctx_, sp, s.depth_ + sizeof(key_type), bktcache);
+                            ctx_, sp, s.depth_ + sizeof(key_type), bktcache());
                     }
                 }
             }
